@@ -130,14 +130,14 @@ func (r *pipeRig) subscribe(app protocol.EUI) {
 func (r *pipeRig) deliver(p server.GatewayPacket) error {
 	atomic.AddInt64(&r.inflight, 1)
 	r.fwd.out <- p
-	return r.waitQuiet(10 * time.Second)
+	return r.waitQuiet(30 * time.Second)
 }
 
 // inject (controlled mode) injects a frame and returns once everything in flight is parked.
 func (r *pipeRig) inject(p server.GatewayPacket) error {
 	atomic.AddInt64(&r.inflight, 1)
 	r.fwd.out <- p
-	return r.waitStable(10 * time.Second)
+	return r.waitStable(30 * time.Second)
 }
 
 func (r *pipeRig) waitQuiet(timeout time.Duration) error {
